@@ -1908,3 +1908,45 @@ def run_earlydepends(chk, F, rid="R-EARLYDEPENDS"):
            "the range is held by the type of the variable, no expression of the statement mentions it, so a function that reads "
            "a variable only there does not depend on it", "src/statement.cpp",
            sample="visitIterationStatement collects the reads of the variable's range and visits the body")
+
+
+# ---------------------------------------------------------------------------------------------- R-DYNPARAM
+def run_dynparam(chk, F, rid="R-DYNPARAM"):
+    """A `dynamic T(..);` declaration creates the template with *its* parameter frame; the later definition `process T(..)`
+    is only compared with it, and the body is then type checked against the declared parameters.  A comparison by the
+    outermost kind of the type alone lets the definition say `const` (behind a typedef name, both are LABEL) where the
+    declaration did not: the body is written against a constant, checked against a variable (found by a defect-hunt
+    sub-agent, E12-2: `dynamic T(mi k); process T(ci k) { .. k = 1 .. }` accepted)."""
+    chk.rule(rid, "DocumentBuilder::proc_begin compares each parameter of the definition of a dynamic template with the "
+                  "declared one by name, by constness (is_constant) and by reference-ness, with an error report when they "
+                  "differ")
+    fn = F.resolve_method("UTAP::DocumentBuilder", "proc_begin")
+    if fn is None or fn.get("body") is None:
+        raise AnalysisBroken("DocumentBuilder::proc_begin not found")
+    fn = expanded_fn(fn, F, accept=lambda t: bool(t.get("static")) and not t.get("cls"), maxdepth=2)
+    if not any(c.get("name") in ("handle_error", "handleError") for c in calls(fn["body"])):
+        raise AnalysisBroken("proc_begin reports no error")
+    # the text of every comparison in proc_begin and in the file-local helpers it calls (same_parameter(def, decl), ..)
+    bodies, todo, seen = [fn["body"]], list(calls(fn["body"])), set()
+    while todo:
+        c = todo.pop()
+        for t in F.fns(c.get("fn") or ""):
+            if t.get("body") is None or t.get("cls") or t["q"] in seen or not (t.get("file") or "").endswith("DocumentBuilder.cpp"):
+                continue
+            seen.add(t["q"])
+            bodies.append(t["body"])
+            todo.extend(calls(t["body"]))
+    txt = ""
+    for bd in bodies:
+        for x in walk(bd):
+            if x.get("k") == "bin" and x.get("op") in ("!=", "=="):
+                txt += " " + short(x)
+            if x.get("k") == "call" and x.get("ck") == "op" and x.get("op") in ("!=", "=="):
+                txt += " " + short(x)
+    gates = [{"l": fn.get("line")}]
+    for what, needle in (("constness", "is_constant"), ("reference", "REF")):
+        chk.ob(rid, "proc_begin|%s" % what, txt.count(needle) >= 2,
+               "DocumentBuilder::proc_begin does not compare the %s of the parameters of the definition of a dynamic template "
+               "with the declaration: the template keeps the declared parameters, so `dynamic T(mi k); process T(ci k) { .. k = 1 "
+               ".. }` (mi = int, ci = const int) type checks the write against a variable" % what,
+               "%s:%s" % (fn["file"], gates[0].get("l")), sample="the %s of declared and defined parameter is compared" % what)
